@@ -89,3 +89,12 @@ Proof. intros [v [Hv Hn]]. induction vals as [|a t IH]; [destruct Hv|]. simpl.
 (* the selected array holds, at position k of the sampling dim, the value at the k-th selected position *)
 Lemma lselect_get a sd pos e : lget (lselect a sd pos) e = lget a (upd e sd (nth (e sd) pos O)).
 Proof. reflexivity. Qed.
+
+(* the array functions apply the sequence functions along the sampling / collapsed dimension *)
+Lemma ff_array_get a sd ang r : ff_array a sd ang = Ok r ->
+  forall e, lget r e = ff_seq ang (map (lget a) (envs (lsize a) (dinter (ldims a) [sd]) e)).
+Proof. unfold ff_array. destruct (check_dims (ldims a) (DList [sd]) MSuperset); simpl; [|discriminate]. intro H; inversion H; subst. reflexivity. Qed.
+Lemma sector_array_get a keep skipna r : sector_array a keep skipna = Ok r ->
+  exists d, ddiff (ldims a) keep = [d] /\ forall e, lget r e = sector_x skipna (map (lget a) (envs (lsize a) (dinter (ldims a) [d]) e)).
+Proof. unfold sector_array. destruct (check_dims (ldims a) (DList keep) MProperSuperset); simpl; [|discriminate].
+  destruct (ddiff (ldims a) keep) as [|d [|d' r']]; try discriminate. intro H; inversion H; subst. exists d. split; reflexivity. Qed.
